@@ -468,8 +468,10 @@ func (e *Enc) atReturn(fr *Frame, x *ssa.Return, vs []Val) {
 		}
 		e.addObligation("covers", "nonnil-return", And(fr.curReach, Not(isNil)), Or(alts...), "every non-nil return is produced at an annotated failure site")
 	}
-	if e.fc.ModGiven {
+	if e.fc.ModGiven && !e.fc.ModAssumed {
 		e.frameObligation(fr)
+	} else if e.fc.ModAssumed {
+		e.note("frame of " + e.fnDisplayName() + " is assumed (modifies-assumed), not checked")
 	}
 }
 
@@ -530,6 +532,10 @@ func (e *Enc) frameObligation(fr *Frame) {
 			if a.key == k || strings.HasPrefix(k, a.key+".") {
 				exc = append(exc, Eq(bv, a.idx))
 			}
+		}
+		// objects allocated during the call are not part of the caller-visible frame
+		for _, ar := range e.allocRefs {
+			exc = append(exc, Eq(bv, ar))
 		}
 		body := Imp(Not(Or(exc...)), Eq(Select(cur, bv), Select(ent, bv)))
 		g := T{"(forall ((|fx| Int)) " + body.S + ")", SBool}
